@@ -46,9 +46,10 @@ def build(ctx, engine_props=()):
 # ---------------------------------------------------------------------------------- implementation side
 
 def _one_program(args):
-    (seed, idx, scratch, nfacts, variants, surjective_only, cu, max_rules) = args
+    (seed, idx, scratch, nfacts, variants, surjective_only, cu, max_rules) = args[:8]
     rng = Rng(seed).fork("prog%d" % idx)
-    g = progs.ProgGen(rng, surjective_only=surjective_only, max_rules=max_rules)
+    # every other program uses enum declarations and branch / match statements
+    g = progs.ProgGen(rng, surjective_only=surjective_only, max_rules=max_rules, enums=(idx % 2 == 1), control=(idx % 2 == 1))
     prog = None
     for _ in range(20):
         prog = g.gen()
@@ -132,14 +133,18 @@ def random_cond(rng, prog, fs, hoe):
     return ("P", r, hs)
 
 
-def run_programs(ctx, nprog, nfacts, variants, surjective_only=False, cu=False, max_rules=5, tag="eng"):
+def run_programs(ctx, nprog, nfacts, variants, surjective_only=False, cu=False, max_rules=5, tag="eng",
+                 worker=None, opts=None, indices=None):
+    """worker: optional replacement of _one_program (a picklable top-level function taking the same argument tuple
+    with `opts` (a dict) appended as 9th component) - used by checks that need their own histories (C04)."""
     scratch = os.path.join(CACHE, "scratch", "%s-%d" % (tag, os.getpid()))
     os.makedirs(scratch, exist_ok=True)
     try:
         gendrv.runtime_rlib()
-        args = [(ctx.seed, i, scratch, nfacts, variants, surjective_only, cu, max_rules) for i in range(nprog)]
+        args = [(ctx.seed, i, scratch, nfacts, variants, surjective_only, cu, max_rules, opts or {})
+                for i in (indices if indices is not None else range(nprog))]
         with ProcessPoolExecutor(max_workers=16) as ex:
-            res = list(ex.map(_one_program, args))
+            res = list(ex.map(worker or _one_program, args))
     finally:
         shutil.rmtree(scratch, ignore_errors=True)
     return res
